@@ -200,6 +200,8 @@ class Proof:
 
     def find_item(self, id: ItemID) -> ProofItem:
         """Find item at the given id."""
+        if len(id.id) == 0 or any(i < 0 for i in id.id):
+            raise ProofStateException
         try:
             item = self.items[id.id[0]]
             for i in id.id[1:]:
